@@ -175,7 +175,7 @@ def determinism_probe(exe, prop, seed, n=64):
     reports (hashes of all result logs, stats). A mismatch is a harness error."""
     reps = []
     for _ in range(2):
-        r = D.run_workers(exe, prop, seed, n, n, want_hashes=True, workers=1)
+        r = D.run_workers(exe, prop, seed, n, n, want_hashes=True, workers=1, timeout_per_chunk=45)
         D.cleanup_outs(r)
         if r.violation is not None:
             return  # the main run will find and report it
